@@ -416,7 +416,10 @@ impl<'a> Searcher<'a> {
                     .map(|f| f.to_string())
                     .collect();
                 let buffer_partitions = self.partitioned_output_buffer.clone();
-                let buffer_partitions = buffer_partitions.iter().collect::<Vec<_>>();                 
+                // the partitions live in a hash map, whose order changes from run to run: list the groups by
+                // key, so that the same query prints the same rows (and LIMIT keeps the same ones) every time
+                let mut buffer_partitions = buffer_partitions.iter().collect::<Vec<_>>();
+                buffer_partitions.sort_by(|a, b| a.0.cmp(b.0));
                 
                 let mut results = vec![];
                 
